@@ -87,10 +87,56 @@ def _int_mesh(rng):
     return {"kind": "polyline", "V": V, "E": E, "tag": "intpoly", "vint": True}
 
 
+def _relabel(mesh, a, b):
+    """swap the vertex ids a and b"""
+    sw = lambda v: b if v == a else a if v == b else v
+    m = dict(mesh)
+    V = [list(v) for v in mesh["V"]]
+    V[a], V[b] = V[b], V[a]
+    m["V"] = V
+    for k in ("F", "C", "E"):
+        if k in m: m[k] = [[sw(v) for v in el] for el in m[k]]
+    m["tag"] = str(m.get("tag")) + "+last-near-start"
+    return m
+
+
+def _last_near_start(rng, mesh):
+    """family `last-id-near-start`: the vertex with the LAST id (n-1) is a neighbour of the start (or the start
+    itself), the targets are the vertices farthest from the start (set / border query with several targets)"""
+    n = len(mesh["V"])
+    E = H.edges_of(mesh)
+    start = rng.randrange(n)
+    nb = sorted({b if a == start else a for a, b in E if start in (a, b)})
+    if not nb or n < 4: return None
+    if rng.random() < 0.25:
+        mesh = _relabel(mesh, start, n - 1); start = n - 1            # start == last id
+    else:
+        u = rng.choice(nb)
+        if start == n - 1: mesh = _relabel(mesh, start, 0); start = 0; u = n - 1 if u == 0 else u
+        if u != n - 1: mesh = _relabel(mesh, u, n - 1)
+    hops = H.bfs_hops(n, H.edges_of(mesh), start)
+    far = sorted((v for v in range(n) if hops[v] is not None and hops[v] >= 2 and v != n - 1), key=lambda v: -hops[v])
+    q = {"start": start, "w": rng.choice(["one", "length", "dict"]), "wseed": rng.randrange(1000), "export": False,
+         "family": "last-id-near-start"}
+    if q["w"] == "dict": q["wkind"] = "float"
+    if mesh["kind"] == "surface" and rng.random() < 0.3:
+        q.update(q="border", targets=[], tform="none")
+    else:
+        if len(far) < 2: return None
+        k = rng.choice([2, 2, 3])
+        q.update(q="set", targets=far[:k], tform=rng.choice(["list", "set", "tuple"]))
+        if q["tform"] == "set": q["targets"] = sorted(q["targets"])
+    return dict(q, mesh=mesh)
+
+
 def cases(rng, tier):
     n = 4000 if tier == "quick" else 12000
     for i in range(n):
         mesh = _int_mesh(rng) if rng.random() < 0.05 else H.gen_mesh(rng, tier)
+        if rng.random() < 0.08:
+            c = _last_near_start(rng, mesh)
+            if c is not None:
+                yield c; continue
         case = dict(_gen_query(rng, mesh), mesh=mesh)
         if rng.random() < 0.2:
             # history: earlier queries on the SAME mesh object (connectivity caches, attributes left on the mesh)
@@ -165,11 +211,12 @@ def _call(m, edges, q, name):
         elif q["q"] == "set":
             res = P.shortest_path_to_vertex_set(m, start, _targets_arg(q), weights=weights, export_path_mesh=q["export"])
             if q["export"]: pm = res[2]
-            out["ind"] = int(res[0]); out["paths"] = {"set": [int(v) for v in res[1]]}
+            out["ind"] = None if res[0] is None else int(res[0])
+            out["paths"] = {"set": [None if v is None else int(v) for v in res[1]]}
         else:
             res = P.shortest_path_to_border(m, start, weights=weights, export_path_mesh=q["export"])
             if q["export"]: res, pm = res
-            out["paths"] = {"set": [int(v) for v in res]}
+            out["paths"] = {"set": [None if v is None else int(v) for v in res]}
         if q["export"]:
             pv = [[H.frac_str(Fraction(float(c))) for c in v] for v in pm.vertices]
             out["pm"] = [pv, [[int(a), int(b)] for (a, b) in pm.edges]]
@@ -250,6 +297,7 @@ def model_request(case):
 def _path_weight(path, wmap):
     """(valid, exact weight, scale); wmap: {(a,b): Fraction}"""
     tot = Fraction(0)
+    if any(not isinstance(v, int) for v in path): return False, None
     for a, b in zip(path, path[1:]):
         w = wmap.get(H.key2(a, b))
         if w is None or a == b: return False, None
@@ -303,7 +351,7 @@ def compare(case, model, impl):
     ok, w = _path_weight(p, wmap)
     if not p or p[0] != start or not ok: return f"implementation path is not a valid edge path: {p}"
     if abs(w - d) > tol(w): return f"implementation path weight {w} differs from model distance to the set {d}"
-    if "ind" in o and (o["ind"] != p[-1]): return "returned index is not the end of the returned path"
+    if "ind" in o and (not p or o["ind"] != p[-1]): return "returned index is not the end of the returned path"
     return None
 
 
@@ -345,9 +393,8 @@ def oracle(case):
             shape = ("single-target" if len(targets) == 1 else "multi-target") if q != "border" else "border"
             nprep = ("targets=" + case["tform"]) if case["tform"] in ("npint", "ndarray") else \
                     ("start=npint" if case.get("srep") == "npint" else None)
-            if o["r"] == "err:Type" and case["w"] == "one" and not nprep: tag = f"w={wtag}"
-            elif o["r"] == "err:Type" and nprep: tag = nprep + "/" + shape
-            elif o["r"] == "err:Type": tag = f"w={wtag}/{case.get('wkind', '-')}"
+            if o["r"] == "err:Type" and nprep: tag = nprep + "/" + shape
+            elif o["r"] == "err:Type": tag = f"w={wtag}"
             elif o["r"] == "err:Key" and q == "set": tag = shape
             else: tag = f"w={wtag}/{shape}"
             out.append({"key": f"C09/{q}/raises/{o['r']}/{tag}",
@@ -365,14 +412,21 @@ def oracle(case):
             if not p or p[0] != start: out.append({"key": "C09/sp/start", "what": "path does not begin at start", "detail": f"t={t} {p}"}); continue
             if p[-1] != t: out.append({"key": "C09/sp/end", "what": "path does not end at the target", "detail": f"t={t} {p}"}); continue
             if not ok: out.append({"key": "C09/sp/not-edge-path", "what": "path does not walk along mesh edges", "detail": f"t={t} {p}"}); continue
+            if dist[t] is None:
+                out.append({"key": "C09/sp/path-to-unreachable-target", "what": "a valid-looking path is returned to a target that is not connected to the start",
+                            "detail": f"t={t} {p}"}); continue
             if w - dist[t] > tol(w):
                 out.append({"key": f"C09/sp/not-minimal/w={wtag}", "what": "path weight exceeds the Bellman-Ford optimum",
                             "detail": f"t={t} weight {float(w)} optimum {float(dist[t])} path {p}"})
     else:
         p = o["paths"]["set"]
         ok, w = _path_weight(p, wmap)
-        best = min(dist[t] for t in reach)
-        if not p or p[0] != start: out.append({"key": f"C09/{q}/start", "what": "path does not begin at start", "detail": str(p)})
+        best = min((dist[t] for t in reach), default=None)
+        if best is None:
+            # no member of the set is connected to the start, yet the implementation answered with a path
+            out.append({"key": f"C09/{q}/path-to-unreachable-set", "what": "a path is returned although no member of the set is connected to the start",
+                        "detail": f"path {p} index {o.get('ind')} targets {targets[:6]}"})
+        elif not p or p[0] != start: out.append({"key": f"C09/{q}/start", "what": "path does not begin at start", "detail": str(p)})
         elif p[-1] not in targets: out.append({"key": f"C09/{q}/end-not-member", "what": "path does not end at a member of the set", "detail": str(p)})
         elif not ok: out.append({"key": f"C09/{q}/not-edge-path", "what": "path does not walk along mesh edges", "detail": str(p)})
         else:
@@ -413,7 +467,7 @@ def classify(case, obs):
         ks.append("ntargets:" + (str(len(case["targets"])) if len(case["targets"]) <= 3 else ">3"))
         if case["start"] in case["targets"]: ks.append("start-in-targets")
     if o["r"] == "ok":
-        L = max(len(p) for p in o["paths"].values())
+        L = max((len(p) for p in o["paths"].values()), default=0)
         ks.append("maxpath:" + ("1" if L == 1 else "2-4" if L <= 4 else ">4"))
     if case["export"]: ks.append("export")
     if "2comp" in case["mesh"].get("tag", ""): ks.append("disconnected")
@@ -423,6 +477,7 @@ def classify(case, obs):
     if case["q"] == "sp" and case["targets"] == [case["start"]]: ks.append("start=target")
     if case.get("pre"): ks.append("history:%d-earlier-queries" % len(case["pre"]))
     if case["mesh"].get("vint"): ks.append("int-coordinates")
+    if case.get("family"): ks.append("family:" + case["family"] + (":start=last" if case["start"] == len(case["mesh"]["V"]) - 1 else ""))
     return ks
 
 
